@@ -106,18 +106,20 @@ type Node struct {
 	TheErr *NodeErr
 	CtxErr error
 
-	Closes    int
-	Reopens   int
-	CloseErr  error
-	ReopenErr error
-	OnProcess func(ctx context.Context, e *el.Event) // optional re-entrancy hook
-	OnClose   func(ctx context.Context)
-	OnReopen  func()
-	NoCloser  bool
-	Yield     bool   // scheduling point inside Process (a node takes time)
-	ProbeTag  string // what probe Sends report for this object
-	DumpName  string // canonical name used in state dumps and probe logs (set by the harness)
-	serial    int
+	Closes           int
+	Reopens          int
+	CloseErr         error
+	ReopenErr        error
+	OnProcess        func(ctx context.Context, e *el.Event) // optional re-entrancy hook
+	OnClose          func(ctx context.Context)
+	OnReopen         func()
+	NoCloser         bool
+	Yield            bool // scheduling point inside Process (a node takes time)
+	BlockOnlyPayload bool // Block script: only events carrying BlockPayload wait on the gate
+	BlockPayload     interface{}
+	ProbeTag         string // what probe Sends report for this object
+	DumpName         string // canonical name used in state dumps and probe logs (set by the harness)
+	serial           int
 }
 
 func (n *Node) VerifName() string {
@@ -150,7 +152,9 @@ func (n *Node) Process(ctx context.Context, e *el.Event) (*el.Event, error) {
 	case ErrCtx:
 		err = n.CtxErr
 	case Block:
-		n.Gate.Wait()
+		if !n.BlockOnlyPayload || e.Payload == n.BlockPayload {
+			n.Gate.Wait()
+		}
 		out = e
 	}
 	n.L.ret(i, out, err)
@@ -189,6 +193,15 @@ func (n CNode) Close(ctx context.Context) error {
 	}
 	return n.CloseErr
 }
+
+// Wrapper is a node that wraps another one (NodeUnwrapper); Inner may be nil,
+// e.g. a lazily opened sink that was never opened.
+type Wrapper struct {
+	*Node
+	Inner el.Node
+}
+
+func (w Wrapper) Unwrap() el.Node { return w.Inner }
 
 // NewNode builds a recording node; with closer=true the returned value
 // implements Closer.
